@@ -61,12 +61,14 @@ def make_case(cid, rng, schema, root, n_ops, disk):
                               "DELETE FROM MetaDataInteger WHERE type = 5",
                               "UPDATE Track SET length = NULL, year = NULL"])
             add({"op": "raw_exec", "sql": sql}, None)
+    # lookups must also be asked for keys that do not exist
+    add({"op": "note", "names": ["6e6f2d737563682d6372617465", "41"], "paths": ["6e6f2f737563682f706174682e6d7033"], "ids": [0, -1, 424242]}, None)
     add({"op": "counters"}, "c0")
     add({"op": "rawdump", "digest": True, "checks": False}, "d0")
     if disk:
         add({"op": "file_digest", "dir": d}, "f0")
-    add({"op": "observe_all"}, "o1")
-    add({"op": "observe_all"}, "o2")
+    add({"op": "observe_all", "verify": True}, "o1")
+    add({"op": "observe_all", "verify": True}, "o2")
     add({"op": "verify"}, "verify")
     if v2:
         add({"op": "table_observe"}, "t1")
